@@ -302,6 +302,14 @@ impl Local {
             }
         }
     }
+    /// cheap pre-test so that callers build the sample text only when it would be kept
+    #[inline]
+    pub fn wants(&self, slot: u32) -> bool {
+        match self.samples.get(&slot) {
+            Some(e) => e.0 > self.order,
+            None => true,
+        }
+    }
     pub fn merge(&mut self, o: &Local) {
         self.n += o.n;
         self.nontrivial += o.nontrivial;
@@ -562,9 +570,13 @@ impl Report {
             "space": desc,
             "inputs": st.inputs,
             "wall_s": (st.wall * 100.0).round() / 100.0,
-            "zones": zones_json(&st.local.zones),
-            "outcomes": outcomes_json(&st.local.outcomes),
         });
+        if st.local.zones.iter().any(|z| *z != 0) {
+            e[name]["zones"] = zones_json(&st.local.zones);
+        }
+        if st.local.outcomes.iter().any(|z| *z != 0) {
+            e[name]["outcomes"] = outcomes_json(&st.local.outcomes);
+        }
     }
 }
 
